@@ -1,5 +1,5 @@
 """property id -> clauses (rule functions) + the honest remainder.  Single source for MANIFEST.json."""
-from . import r2, r3, r4, r6, r7, r9, r10
+from . import r2, r3, r4, r6, r7, r8, r9, r10
 
 
 def fam(*names):
@@ -64,6 +64,14 @@ PROPS = {
         "the underflow assertions of sub2/sub2rev are mandatory in release builds and test both the final borrow and the subtrahend's high digits, "
         "checked_sub returns None exactly on Less and subtracts only on Greater, and no call site drops the carry returned by __add2.",
         "technique": T_R2 + "; " + T_R3,
+    },
+    "C02": {
+        "clauses": [fam("Mul"), signed("Mul"), both(r3.check_underflow_asserts), r3.check_add2_carry_used, r8.check_cost],
+        "not_decided": "temporary sizing, the Karatsuba/Toom-3 algebra, mac_with_carry arithmetic, the power-of-two shortcut (all value-level); rule-of-signs table (planned R5)",
+        "level_text": "Decides: all Mul operator forms forward with operands in either order only because * is commutative, or are reviewed implementations; the carry-overflow "
+        "assertion of mac_digit is mandatory in release builds and tests the carry returned by __add2; no call site drops a carry; the regime dispatch has a "
+        "base case (no recursive product at or below the schoolbook threshold).",
+        "technique": T_R2 + "; " + T_R3 + "; regime extraction from mac3",
     },
     "C03": {
         "clauses": [fam("Div", "Rem"), signed("Div", "Rem"), both(r3.check_div_guards), r3.check_checked_div, r3.check_division_sites],
@@ -191,6 +199,15 @@ PROPS = {
         "constants read from MIR); BigInt <-> the pair (sign, magnitude) in this order, rebuilt through the canonicalising from_biguint; pre-allocation from "
         "size hints is capped; the declared sequence length and the conditional emission of the last high half test the same value; enabling serde changes no other function.",
         "technique": "MIR switch-table and constant extraction, argument provenance; cross-configuration MIR fingerprints",
+    },
+    "C20": {
+        "clauses": [r8.check_cost],
+        "not_decided": "constant factors of the linear work (additions, allocation), measured operation counts, wall-clock time",
+        "level_text": "Decides the property's inequalities on the work recurrence that the code implies: regime thresholds (32, 256), the 2|x| <= |y| rule and the number of "
+        "recursive products per regime (2, 3, 5; maximum over CFG paths, recursion found through the call graph) are read from mac3's MIR and instantiate "
+        "W(n,m); then W(2n)/W(n) <= ~3 for n = 256..8192, W(4096) < 4096^2/4 and W(n,m) <= n*m for unbalanced shapes are evaluated. Retuned thresholds "
+        "that keep the inequalities pass; a fourth Karatsuba product or a useless threshold fails.",
+        "technique": "recurrence extraction: dominance regions of the regime tests in MIR + call-graph reachability for recursive fan-out, evaluated symbolically in Python",
     },
     "C18": {
         "clauses": [guards("range", "bound"), r10.check_rejection_loop, r10.check_gen_bigint, r10.check_delegations],
